@@ -51,7 +51,7 @@ pub fn plan(prop: &str, tier: &str) -> Vec<PartPlan> {
         }
         "C17" => vec![if t { pp("kv", 16, 16000 / 16) } else { pp("kv", 16, 1600 / 16) }, if t { pp("replica", 16, 4800 / 16) } else { pp("replica", 16, 320 / 16) }],
         "C18" => vec![if t { pp("configs", 16, 16000 / 16) } else { pp("configs", 16, 1600 / 16) }],
-        "C19" => vec![h(8000, 128000), if t { pp("revs", 16, 400_000 / 16) } else { pp("revs", 16, 20_000 / 16) }],
+        "C19" => vec![h(8000, 128000), if t { pp("revs", 16, 400_000 / 16) } else { pp("revs", 16, 20_000 / 16) }, if t { pp("twins", 16, 64000 / 16) } else { pp("twins", 16, 4000 / 16) }],
         _ => vec![],
     }
 }
@@ -89,7 +89,7 @@ pub fn rule(prop: &str, tier: &str) -> String {
         "C05" => v.push("[trees] generated (revision,parent) sets: several creations, update/delete/marker children, dangling parents, chains past index 10/100, inserted in 2-6 generated permutations via add and unvalidated_add+validate; RevisionTree leaves/winner vs reference rule; non-trivial = >=2 live leaves and (marker | dangling parent | index>=10). [tree-exhaustive] every shape with <=4 (quick) / <=5 (thorough) nodes x every insertion order".into()),
         "C06" => v.push("[merge-exhaustive] merge_arrays on every ordered pair of duplicate-free sequences (6 symbols/len<=6 quick; 7 symbols/len<=6 thorough) and every triple folded on a base (5/4; 6/4): union exactly once, base order kept, other order kept when the versions agree on common elements; non-trivial = both sides contribute an element or disagree on order".into()),
         "C16" => v.push("[chains-capN] one replica, chains of 2-40 (60) successive versions of two flattened arrays (insert, remove, rotate, reverse, empty, refill, move across arrays, key removal/re-addition, identical successive edits) with commits, reopens and snapshots interleaved, run in worker processes with MELDA_ARRAYDESCRIPTORS_CACHE_CAP = MELDA_DATA_CACHE_CAP in {1,2,3,16}; read()==submitted after every step and every stored version on the parent chain rebuilt by the reference applier == what was submitted for that revision; non-trivial = chain >=5 with an emptying and refill. [diff-exhaustive] every ordered pair of sequences with repeats over 4 symbols (len<=6 quick, <=7 thorough): apply(make(a,b),a)==b with melda's applier and, after a JSON text round trip, with the reference applier; script empty iff a==b; non-trivial = script with >=2 operations".into()),
-        "C19" => v.push("[revs] generated revision pools built through the Revision API (creation/update/deletion/marker, chains crossing 9->10, 99->100, 999->1000): purity, new_updated == new(index+1), identifier == reference function of (digest, parent id), print/parse round trip incl. hash, and over generated triples totality/antisymmetry/transitivity/consistency with equality and agreement with the reference order; non-trivial = triple mixing marker+deletion+update or a boundary-crossing chain".into()),
+        "C19" => v.push("[revs] generated revision pools built through the Revision API (creation/update/deletion/marker, chains crossing 9->10, 99->100, 999->1000): purity, new_updated == new(index+1), identifier == reference function of (digest, parent id), print/parse round trip incl. hash, and over generated triples totality/antisymmetry/transitivity/consistency with equality and agreement with the reference order; non-trivial = triple mixing marker+deletion+update or a boundary-crossing chain. [twins] two replicas brought to a common base by a generated history + complete exchange apply the same generated edits independently: winners of every object (revision strings) and states must be equal after each edit, and after commit + exchange no new conflict may exist; non-trivial = the twin edit created new revisions".into()),
         _ => {}
     }
     v.join(" || ")
@@ -117,6 +117,7 @@ pub fn run_part(prop: &str, part: &str, tier: &str, cases: u32, seed: u64, _shar
         "tree-exhaustive" => crate::unit::tree_exhaustive(tier == "thorough", _shard, _nshards),
         "merge-exhaustive" => crate::unit::merge_exhaustive(tier == "thorough", _shard, _nshards),
         "diff-exhaustive" => crate::unit::diff_exhaustive(tier == "thorough", _shard, _nshards),
+        "twins" => runner::drive("twins", prop, crate::c19::strategy(), cases, seed, crate::c19::run),
         "configs" => {
             let th = tier == "thorough";
             runner::drive("configs", prop, crate::c18::strategy(th), cases, seed, |c| crate::c18::run(c, th))
@@ -164,6 +165,10 @@ pub fn replay_part(prop: &str, part: &str, case: &Value) -> Option<(String, Stri
         "revs" => {
             let case: crate::unit::RevCase = serde_json::from_value(case.clone()).ok()?;
             runner::replay(prop, &case, 1, crate::unit::run_rev)
+        }
+        "twins" => {
+            let case: crate::c19::TwinCase = serde_json::from_value(case.clone()).ok()?;
+            runner::replay(prop, &case, 5, crate::c19::run)
         }
         "configs" => {
             let case: props::Case = serde_json::from_value(case.clone()).ok()?;
